@@ -5,6 +5,7 @@ reduction are decided by search (fav/props/c17.py).
 -/
 import FAVerif.Generated.C17
 import FAVerif.Lemmas.ExpRed
+import FAVerif.Lemmas.ExpBits
 
 namespace FAVerif.Props.C17
 open FAVerif.IR FAVerif.FP FAVerif.FPQ FAVerif.Gen.C17
@@ -307,5 +308,53 @@ theorem exp_reconstruction_bounds :
     (1024 : ℚ) * |ln2Q - (H64 + L64)| + 3 / 10 ^ 23 ≤ 5 / 10 ^ 23 ∧
     (361 / 1000 : ℚ) ≤ 55 / 100 * ln2Q := by
   refine ⟨?_, ?_, ?_, ?_⟩ <;> norm_num [ln2Q, H16, L16, H32, L32, H64, L64, abs_le, abs_of_nonneg, abs_of_nonpos] <;> norm_num [abs_le]
+
+open FAVerif.Refine FAVerif.SoftRound in
+/-- **The reduction on BIT PATTERNS (float32).**  For every finite input pattern x with |value| ≤ 88.73, if the
+`floor` oracle returns a finite pattern denoting the mathematical floor of its (finite) argument and the five
+arithmetic results are finite, then the program traced from the current source returns patterns (k, r, c) with
+value(r) = value(x) − k·ln2hi EXACTLY, |k| ≤ 128, k·(ln2hi+ln2lo) + (value r + value c) within 2e-11 of value(x)
+and |value r + value c| ≤ 0.348.  Chain: `exp_shape` (the program is the documented formula) →
+`exp_spec_bits` (softfloat mul/add/sub correctly rounded) → `exp_reduction_32`. -/
+theorem exp_reduction_bits_f32 (lib : Libm) (x kb : Nat) (qx : ℚ) (k : ℤ)
+    (fx : isFiniteBits binary32 x = true) (vx : toQ binary32 x = some qx) (hX : |qx| ≤ 8873 / 100)
+    (hlib : lib "floor" [fadd binary32 (fmul binary32 consts32.1 x) consts32.2.1] = some kb)
+    (fk : isFiniteBits binary32 kb = true) (vk : toQ binary32 kb = some (k : ℚ))
+    (hfloor : ∀ q2, toQ binary32 (fadd binary32 (fmul binary32 consts32.1 x) consts32.2.1) = some q2 → k = ⌊q2⌋)
+    (f1 : isFiniteBits binary32 (fmul binary32 consts32.1 x) = true)
+    (f2 : isFiniteBits binary32 (fadd binary32 (fmul binary32 consts32.1 x) consts32.2.1) = true)
+    (fP : isFiniteBits binary32 (fmul binary32 kb consts32.2.2.1) = true)
+    (fr : isFiniteBits binary32 (fsub binary32 x (fmul binary32 kb consts32.2.2.1)) = true)
+    (fc : isFiniteBits binary32 (fmul binary32 (fneg binary32 kb) consts32.2.2.2) = true) :
+    ∃ rb cb qr qc, argred_exp_f32.eval lib [x] = some [kb, rb, cb] ∧ toQ binary32 rb = some qr ∧ toQ binary32 cb = some qc ∧
+      |k| ≤ 128 ∧ qr = qx - k * H32 ∧ |k * (H32 + L32) + (qr + qc) - qx| ≤ 2 / 10 ^ 11 ∧ |qr + qc| ≤ 348 / 1000 := by
+  have hf : WF binary32 := ⟨by decide, by decide⟩
+  have hq : qf binary32 hf.hp = q32 := by
+    unfold qf q32
+    have : binary32.emin = -149 := by decide
+    simp only [this]; rfl
+  obtain ⟨c1, c2, c3, c4⟩ := exp_constants
+  have cV : toQ binary32 consts32.1 = some V32 := by have := congrArg (·.1) c2; simpa [toQ] using this
+  have cH : toQ binary32 consts32.2.2.1 = some H32 := by have := congrArg (·.2.1) c2; simpa [toQ] using this
+  have cL : toQ binary32 consts32.2.2.2 = some L32 := by have := congrArg (·.2.2) c2; simpa [toQ] using this
+  have cHf : toQ binary32 consts32.2.1 = some (1 / 2) := by decide +kernel
+  have fV : isFiniteBits binary32 consts32.1 = true := by decide +kernel
+  have fHf : isFiniteBits binary32 consts32.2.1 = true := by decide +kernel
+  have fH : isFiniteBits binary32 consts32.2.2.1 = true := by decide +kernel
+  have fL : isFiniteBits binary32 consts32.2.2.2 = true := by decide +kernel
+  have hx : Rep q32 qx := by
+    obtain ⟨s, m, e, hd⟩ := finite_decode binary32 x fx
+    have := rep_of_decode binary32 hf x s m e hd
+    rw [toQ_fin binary32 x s m e hd] at vx; cases vx
+    rw [hq] at this; exact this
+  obtain ⟨b1, b2, b3⟩ := exp_spec_bits binary32 hf consts32.1 consts32.2.1 consts32.2.2.1 consts32.2.2.2 x kb V32 H32 L32 qx
+    fV cV fHf cHf fH cH fL cL fx vx f1 f2 fk k vk hfloor fP fr fc
+  rw [hq] at b1 b2 b3
+  have hr : IsRN q32 (FAVerif.FPQ.rne q32) := FAVerif.FPQ.isRN_rne _
+  obtain ⟨e1, e2, e3, e4, e5, e6⟩ := exp_reduction_32 (FAVerif.FPQ.rne q32) hr qx hx hX
+  rw [← b1] at e1 e2 e3 e4 e5
+  refine ⟨_, _, _, _, ?_, b2, b3, e1, e2, e4, e5⟩
+  rw [(exp_shape lib x).2.1]
+  simp only [spec, hlib]
 
 end FAVerif.Props.C17
